@@ -202,6 +202,7 @@ func runC12(c *Check) {
 	ruleVerifierBoundBeforeValidation(c, p)
 	ruleSubmessagePresence(c, p)
 	ruleDecodersOverwrite(c, p)
+	ruleDecodersAcceptEmptyEncoding(c, p)
 }
 
 // ruleVerifierBoundBeforeValidation (C12-R6): the payload provider a signed header is verified
@@ -1313,5 +1314,78 @@ func ruleDecodersOverwrite(c *Check, p *Prog) {
 	}
 	if n < 20 {
 		c.Unk(rule, "anchor-count", "", "", fmt.Sprintf("anchor lost: only %d receiver fields written by the wire decoders", n))
+	}
+}
+
+// ruleDecodersAcceptEmptyEncoding (C12-R9): proto3 omits zero values, so a value all of whose
+// fields are zero encodes to no bytes at all — a Data without metadata and without transactions
+// (what block building starts from, the content behind the empty-block commitment), a zero
+// Metadata, a zero Header's sub-messages. "Encoding then decoding yields an equal value" includes
+// those values: a binary decoder of a wire type whose encoder can emit nothing must not refuse
+// empty input.
+func ruleDecodersAcceptEmptyEncoding(c *Check, p *Prog) {
+	rule := "C12-R9"
+	c.Doc(rule, "GA: the binary decoder of a wire type whose encoder does not always emit a sub-message (so that some value encodes to zero bytes) has no refusal on empty input: decode(encode(x)) = x also for the value that encodes to nothing.")
+	presence := submessagePresence(p)
+	n := 0
+	for _, wp := range wirePairs {
+		fn := p.Func(typesM(wp.goT, "UnmarshalBinary"))
+		if fn == nil || fn.Blocks == nil || len(fn.Params) < 2 {
+			continue
+		}
+		alwaysEmits := false
+		for _, pe := range presence {
+			if pe.Encoder == wp.goT+".ToProto" && pe.Presence == "always" {
+				alwaysEmits = true
+			}
+		}
+		n++
+		inst := wp.goT + ".UnmarshalBinary ⟂ accepts the empty encoding"
+		if alwaysEmits {
+			c.OK(rule, inst, fnName(fn), p.Pos(fn.Pos()), "the encoder always emits a sub-message: no value of this type encodes to zero bytes", false)
+			continue
+		}
+		g := BuildECFG(p, fn, ExpandOpts{MaxDepth: 0})
+		c.NoteGraph(g)
+		in := fn.Params[1].Name()
+		empties := g.Select(EdgeWhere(func(t *Term, pol bool, nd *Node) bool {
+			a, op, b, ok := canonCmp(t, pol)
+			if !ok {
+				return false
+			}
+			isLen := func(x *Term) bool { return x.unconv().String() == "len("+in+")" }
+			k := func(x *Term) string { return x.unconv().Name }
+			// len(in) == 0, len(in) < 1, len(in) <= 0, or in == nil
+			if (isLen(a) && ((op == "==" && k(b) == "0") || (op == "<" && k(b) == "1") || (op == "<=" && k(b) == "0"))) || (isLen(b) && op == "==" && k(a) == "0") {
+				return true
+			}
+			return op == "==" && ((a.String() == in && k(b) == "nil") || (b.String() == in && k(a) == "nil"))
+		}))
+		refuses := false
+		var at *Node
+		for _, e := range empties {
+			reach := g.Reachable([]*Node{e}, nil)
+			onlyErr := true
+			any := false
+			for _, x := range g.Exits {
+				if reach[x] {
+					any = true
+					if g.ExitClass(x) != rcA {
+						onlyErr = false
+					}
+				}
+			}
+			if any && onlyErr {
+				refuses, at = true, e
+			}
+		}
+		if refuses {
+			c.Bad(rule, inst, fnName(fn), p.InstrPos(at.In), "the decoder refuses empty input, but a "+wp.goT+" all of whose fields are zero encodes to zero bytes (proto3 omits zero values): encoding then decoding that value fails — on the block store, the P2P store and the cache file alike", nil)
+		} else {
+			c.OK(rule, inst, fnName(fn), p.Pos(fn.Pos()), "empty input is handed to the protobuf decoder like any other", true)
+		}
+	}
+	if n < 4 {
+		c.Unk(rule, "anchor-count", "", "", fmt.Sprintf("anchor lost: only %d binary decoders of wire types found", n))
 	}
 }
